@@ -682,11 +682,11 @@ class HierarchyElement(DiagLayer):
         if com_param is None:
             return None
 
-        val = com_param.value
-        if not isinstance(val, str):
+        if not isinstance(com_param.value, str):
             return None
 
-        return int(val)
+        # take the default value of the comparam into account
+        return int(com_param.get_value())
 
     def get_can_fd_baudrate(self,
                             protocol: Optional[Union[str, "Protocol"]] = None) -> Optional[int]:
@@ -702,11 +702,11 @@ class HierarchyElement(DiagLayer):
         if com_param is None:
             return None
 
-        val = com_param.value
-        if not isinstance(val, str):
+        if not isinstance(com_param.value, str):
             return None
 
-        return int(val)
+        # take the default value of the comparam into account
+        return int(com_param.get_value())
 
     def get_can_receive_id(self,
                            protocol: Optional[Union[str, "Protocol"]] = None) -> Optional[int]:
